@@ -21,6 +21,7 @@ import (
 	"fmt"
 	"io/fs"
 	"math/rand"
+	"os"
 	"sort"
 	"strings"
 	"sync"
@@ -280,10 +281,15 @@ var c13WaitFuncs = map[string]string{
 	"github.com/caddyserver/certmagic.(*Config).renewDynamicCertificate":   "wait-renew",
 }
 
+// c13ErrUnsettled: some goroutine never came to rest (it spins or is blocked somewhere else); the
+// positions are recorded with "running" for such goroutines, the case and the run end there.
+var c13ErrUnsettled = errors.New("goroutines did not come to rest")
+
 // settle waits until every goroutine is provably blocked (gate / waiting select / finished) and
-// fills in th.pos. It returns an error if that does not happen within the deadline.
+// fills in th.pos. If that does not happen within the deadline the goroutines that are not at rest
+// get the position "running" and c13ErrUnsettled is returned.
 func (e *c13Env) settle() error {
-	deadline := time.Now().Add(20 * time.Second)
+	deadline := time.Now().Add(10 * time.Second)
 	for {
 		// first what the goroutines have reported themselves (at a gate / returned), THEN the dump:
 		// a goroutine that reported is blocked or finished for good, the others are judged by a
@@ -379,7 +385,20 @@ func (e *c13Env) settle() error {
 			return nil
 		}
 		if time.Now().After(deadline) {
-			return fmt.Errorf("goroutines did not come to rest within 20s: %s", why)
+			e.mu.Lock()
+			for i, f := range fl {
+				if pos[i] == "" {
+					pos[i] = "running"
+				}
+				f.th.pos = pos[i]
+			}
+			// goroutines that registered after the flags were read
+			for _, th := range e.threads[len(fl):] {
+				th.pos = "running"
+			}
+			e.mu.Unlock()
+			fmt.Fprintf(os.Stderr, "C13: goroutines did not come to rest within 10s: %s\n", why)
+			return c13ErrUnsettled
 		}
 		time.Sleep(150 * time.Microsecond)
 	}
@@ -419,7 +438,7 @@ func (e *c13Env) shutdown() {
 // ---------------------------------------------------------------- one case
 
 var c13PosCode = map[string]int{"at-decision": 0, "at-load": 1, "at-issue": 2, "wait-load": 3, "wait-obtain": 4, "wait-renew": 5,
-	"done-empty": 7, "done-err": 8, "exited": 9, "blocked-lock": 10}
+	"done-empty": 7, "done-err": 8, "exited": 9, "blocked-lock": 10, "running": 10}
 
 type c13Seen struct {
 	Action c13Action `json:"action"`
@@ -429,8 +448,9 @@ type c13Seen struct {
 }
 
 func (e *c13Env) observe(enc *emit.Enc, act c13Action, nBefore int) (c13Seen, error) {
-	if err := e.settle(); err != nil {
-		return c13Seen{}, err
+	settleErr := e.settle()
+	if settleErr != nil && settleErr != c13ErrUnsettled {
+		return c13Seen{}, settleErr
 	}
 	e.mu.Lock()
 	defer e.mu.Unlock()
@@ -514,7 +534,7 @@ func (e *c13Env) observe(enc *emit.Enc, act c13Action, nBefore int) (c13Seen, er
 	for _, i := range seen.OMap {
 		enc.Int(i)
 	}
-	return seen, nil
+	return seen, settleErr
 }
 
 func c13RunCase(w *emit.Writer, cs *c13Case, desc map[string]any) error {
@@ -529,6 +549,7 @@ func c13RunCase(w *emit.Writer, cs *c13Case, desc map[string]any) error {
 	steps := &emit.Enc{}
 	nSteps := 0
 	started := 0
+	unsettled := false
 	perform := func(act c13Action) error {
 		env.mu.Lock()
 		nBefore := len(env.threads)
@@ -571,9 +592,10 @@ func c13RunCase(w *emit.Writer, cs *c13Case, desc map[string]any) error {
 			th.cancel()
 		}
 		s, err := env.observe(steps, act, nBefore)
-		if err != nil {
+		if err != nil && err != c13ErrUnsettled {
 			return err
 		}
+		unsettled = err == c13ErrUnsettled
 		seenAll = append(seenAll, s)
 		taken = append(taken, act)
 		nSteps++
@@ -601,7 +623,7 @@ func c13RunCase(w *emit.Writer, cs *c13Case, desc map[string]any) error {
 			applicable = a.T < len(env.threads) && env.threads[a.T].pos == "wait-load"
 		}
 		env.mu.Unlock()
-		if !applicable {
+		if !applicable || unsettled {
 			break
 		}
 		if a.Kind == "arrive" && started >= cs.Threads {
@@ -613,7 +635,7 @@ func c13RunCase(w *emit.Writer, cs *c13Case, desc map[string]any) error {
 	}
 	{
 		yes, no := true, false
-		for nSteps < 120 {
+		for nSteps < 120 && !unsettled {
 			// enumerate the possible actions
 			var acts []c13Action
 			env.mu.Lock()
@@ -702,10 +724,22 @@ func c13RunCase(w *emit.Writer, cs *c13Case, desc map[string]any) error {
 	w.Hist("scenario=" + cs.Scenario)
 	kb, _ := json.Marshal(taken)
 	w.Add(emit.Case{Desc: desc, In: full, Obs: seenAll, Wire: wire, Nontrivial: nThreads >= 2, Key: cs.Scenario + string(kb)})
+	if unsettled {
+		w.Hist("unsettled=true")
+		return c13ErrUnsettled
+	}
 	return nil
 }
 
 func runC13(tier string, seed int64, outdir string, replay string) error {
+	err := c13Run(tier, seed, outdir, replay)
+	if errors.Is(err, c13ErrUnsettled) {
+		return nil // recorded as a case whose observation fails the specification; nothing can run after it
+	}
+	return err
+}
+
+func c13Run(tier string, seed int64, outdir string, replay string) error {
 	w := emit.NewWriter(outdir, "C13", tier, seed)
 	defer w.Close()
 	w.Meta.Rule = "distinct (scenario, schedule) pairs with at least two goroutines"
@@ -776,6 +810,9 @@ func runC13(tier string, seed int64, outdir string, replay string) error {
 		for i := 0; i < n; i++ {
 			cs := &c13Case{Scenario: sc, Threads: 2 + rr.Intn(5), Seed: rr.Int63()}
 			if err := c13RunCase(w, cs, map[string]any{"class": "random", "scenario": sc}); err != nil {
+				if errors.Is(err, c13ErrUnsettled) {
+					return err
+				}
 				kb, _ := json.Marshal(cs)
 				return fmt.Errorf("%v: case %s", err, kb)
 			}
